@@ -1535,6 +1535,17 @@ class Interp:
         return self.libcall(name, a, n)
 
     def libcall(self, name, a, n):
+        if not a and name in ("epsilon", "max", "min", "lowest", "infinity"):
+            # std::numeric_limits<T>::...() : exact binary64 / 32-bit int constants
+            ty = n.get("type", {}).get("qualType", "")
+            if "double" in ty:
+                big = (Fraction(2) - Fraction(1, 2 ** 52)) * Fraction(2) ** 1023
+                if name == "infinity":
+                    raise Unsupported("numeric_limits<double>::infinity() at " + self.where(n))
+                return {"epsilon": Fraction(1, 2 ** 52), "max": big, "min": Fraction(1, 2 ** 1022), "lowest": -big}[name]
+            if ty in ("int", "const int"):
+                return {"epsilon": 0, "max": 2 ** 31 - 1, "min": -2 ** 31, "lowest": -2 ** 31}[name]
+            raise Unsupported("numeric_limits of %s at %s" % (ty, self.where(n)))
         if name == "pow":
             x, y = a
             if is_sym(y):
